@@ -2,6 +2,7 @@
 # eval_seed.sh <seed dir> <Cxx> [more Cxx...]: confirm a seeded change (tests pass, demo fails with / passes without) in a
 # scratch worktree of /repo outside /repo and /verif, run the named checks against it (COMA_REPO), remove the worktree.
 SEED=$1; shift
+VROOT=$(cd "$(dirname "$0")/.." && pwd)
 WT=$(mktemp -d /tmp/evalwt_XXXX); rmdir $WT
 git -C /repo worktree add -q --detach $WT HEAD || exit 9
 cd $WT
@@ -9,7 +10,7 @@ cd $WT
 git apply $SEED/patch.diff || { echo "PATCH DOES NOT APPLY"; git -C /repo worktree remove --force $WT; exit 9; }
 /venv/bin/python -m pytest -q -p no:cacheprovider 2>&1 | tail -1
 /venv/bin/python $SEED/demo.py >/dev/null 2>&1; echo "demo with change: exit $?"
-cd /verif
+cd $VROOT
 for P in "$@"; do
   COMA_REPO=$WT timeout 1500 ./vcheck $P --tier quick 2>&1 | grep -v "^WARNING" | tail -6; echo "check $P exit=$?"
 done
